@@ -126,7 +126,17 @@ def interest(case):
             a, b = ents[i], ents[j]
             if a[1] & b[1] and a[2] & b[2] and (a[0] != b[0] or a[3] != b[3]):
                 n += 1
-    return min(n, 4)
+    n = min(n, 4)
+    # a group X whose membership differs between masters next to a source group called X_<k>: the names fontc
+    # synthesizes for X's refined classes compete with a real group name
+    for key in ("g1", "g2"):
+        names = {v for m in case["masters"] for v in m[key].values() if v}
+        for x in names:
+            if any(y.startswith(x + "_") for y in names):
+                members = [frozenset(g for g, v in m[key].items() if v == x) for m in case["masters"]]
+                if len(set(members)) > 1:
+                    n += 3
+    return n
 
 
 class Materializer:
@@ -685,6 +695,7 @@ def plan(ctx):
         return [
             ("sim", "KerningSim.cfg", 450, 4, {}),
             ("simfrac", "KerningSimFrac.cfg", 150, 2, {}),
+            ("simnames", "KerningSimNames.cfg", 300, 2, {}),
             # the small exhaustive config alternates between divergent side-1 and side-2 groups with the seed
             ("x2a", "KerningX2a.cfg", None, 2, {"C09_MAXTOTAL": 2, "C09_STRIDE": 12, "C09_OFFSET": s}) if s % 2 else
             ("x2b", "KerningX2b.cfg", None, 2, {"C09_MAXTOTAL": 2, "C09_STRIDE": 12, "C09_OFFSET": s}),
@@ -695,6 +706,7 @@ def plan(ctx):
         ("x2b", "KerningX2b.cfg", None, 2, {"C09_STRIDE": 4, "C09_OFFSET": s}),
         ("x1", "KerningX1.cfg", None, 2, {"C09_STRIDE": 4, "C09_OFFSET": s}),
         ("simfrac", "KerningSimFrac.cfg", 1500, 2, {}),
+        ("simnames", "KerningSimNames.cfg", 3000, 2, {}),
         ("simwide", "KerningSimWide.cfg", 2500, 2, {}),
         ("x0", "KerningX0.cfg", None, 2, {"C09_STRIDE": 16, "C09_OFFSET": s}),
     ]
@@ -704,6 +716,19 @@ def plan(ctx):
 # compile throughput varies 10x with its load); what was emitted but not compiled in time is counted in the
 # evidence (coverage.configs)
 BUDGET_S = {"quick": 100, "thorough": 17 * 60}
+
+
+def account(ev, info, tag, fresh, n):
+    """Book the first n cases of `fresh` as compiled for config `tag`."""
+    info["compiled"] = n
+    for cid, c in fresh[:n]:
+        if c.get("nontrivial"):
+            ev.nontrivial_add(cid)
+    if n:
+        cid, c = fresh[n // 2]
+        ev.sample({"kind": "REPLAY case (%s)" % tag, "id": cid, "default_master": c["dflt"],
+                   "masters": [dict(zip(("groups", "kerning"), master_plists(m, c["den"]))) for m in c["masters"]],
+                   "kerning_masters": c["ks"], "expected": c["exp"], "designOk": c["designOk"]})
 
 
 def main(ctx):
@@ -743,6 +768,7 @@ def main(ctx):
             futs[ex.submit(tlc_generate, ctx, cfg, simulate=sim, workers=workers, env=env,
                            seed=ctx.seed * 7919 + 13, tag=tag)] = (tag, sim, env)
         pending = len(futs)
+        ready = []
         for fut in concurrent.futures.as_completed(futs):
             tag, sim, env = futs[fut]
             cases, skipped, r = fut.result()
@@ -766,25 +792,37 @@ def main(ctx):
                 print("DESIGN-LEVEL: %s: in %d of %d emitted cases the transcribed design (Kerning.tla) gives some pair "
                       "another value than UfoLookup; all of them are replayed into the real compiler" %
                       (tag, len(bad_design), len(fresh)), flush=True)
-            # a fair share of what is left of the budget
+            info = {"cfg": r.cfg, "mode": r.mode, "tlc_cases": len(cases) + skipped, "emitted": len(fresh),
+                    "compiled": 0, "design_level_counterexamples": len(bad_design),
+                    "thinned": sim is not None or int(env.get("C09_STRIDE", 1)) > 1}
+            per_cfg[tag] = info
+            if ctx.quick:
+                ready.append((tag, fresh))          # merged below, once every generator has delivered
+                continue
+            # thorough: compile while the other generators still run; a fair share of what is left of the budget
             now = time.time()
             if deadline is None:
                 deadline = now + BUDGET_S[ctx.tier]
             share = max(deadline - now, 0) / pending
             pending -= 1
-            n = run_cases(ctx, judge, mat, fresh, tag, now + share, chunk=160 if ctx.quick else 500)
-            per_cfg[tag] = {"cfg": r.cfg, "mode": r.mode, "tlc_cases": len(cases) + skipped, "emitted": len(fresh),
-                            "compiled": n, "design_level_counterexamples": len(bad_design)}
-            if sim is not None or int(env.get("C09_STRIDE", 1)) > 1 or n < len(fresh):
-                exhaustive = False
-            for cid, c in fresh[:n]:
-                if c.get("nontrivial"):
-                    ev.nontrivial_add(cid)
-            if n:
-                cid, c = fresh[n // 2]
-                ev.sample({"kind": "REPLAY case (%s)" % tag, "id": cid, "default_master": c["dflt"],
-                           "masters": [dict(zip(("groups", "kerning"), master_plists(m, c["den"]))) for m in c["masters"]],
-                           "kerning_masters": c["ks"], "expected": c["exp"], "designOk": c["designOk"]})
+            n = run_cases(ctx, judge, mat, fresh, tag, now + share, chunk=500)
+            account(ev, info, tag, fresh, n)
+        if ctx.quick:
+            # one list over all configs: design-level counterexamples first, then rank within the config (interest),
+            # configs interleaved -- so the budget, however little the loaded box lets it buy, is spent on the most
+            # interesting sources of EVERY config
+            merged = sorted(((not c["designOk"] and -1 or rank, k, tag, cid, c)
+                             for k, (tag, fresh) in enumerate(ready) for rank, (cid, c) in enumerate(fresh)),
+                            key=lambda x: x[:2])
+            todo = [(cid, c) for _, _, _, cid, c in merged]
+            n = run_cases(ctx, judge, mat, todo, "quick", time.time() + BUDGET_S[ctx.tier], chunk=120)
+            done_ids = set(cid for cid, _ in todo[:n])
+            for tag, fresh in ready:
+                fresh_done = [x for x in fresh if x[0] in done_ids]
+                account(ev, per_cfg[tag], tag, fresh_done + [x for x in fresh if x[0] not in done_ids], len(fresh_done))
+    thinned = [i.pop("thinned") or i["compiled"] < i["emitted"] for i in per_cfg.values()]
+    if any(thinned):
+        exhaustive = False
     ev.extra["configs"] = per_cfg
     n_fix = judge_fixtures(ctx, judge, fix_future.result())
 
